@@ -18,13 +18,15 @@ HARNESSES = {
                   "c08_over16_n3", "c08_wrapper_n2", "c08_plain_to_tracked_n3", "c08_tracked_to_plain_n3", "c08_twin_n3"],
         "thorough": ["c08_plain_n5", "c08_tracked_n5", "c08_heap_n5", "c08_zst_n5", "c08_big_n4",
                      "c08_over16_n5", "c08_wrapper_n2", "c08_twin_n3",
-                     "c08_plain_n3", "c08_tracked_n3", "c08_heap_n3", "c08_zst_n3", "c08_over16_n3"],
+                     "c08_plain_n3", "c08_tracked_n3", "c08_heap_n3", "c08_zst_n3", "c08_over16_n3",
+                     "c08_plain_to_tracked_n3", "c08_tracked_to_plain_n3", "c08_plain_n7", "c08_tracked_n7", "c08_zst_n7"],
     },
     "C09": {
         "quick": ["c09_plain_n3", "c09_tracked_n3", "c09_heap_n3", "c09_zst_n3", "c09_over16_n3",
                   "c09_big_n2", "c09_plain_to_tracked_n3", "c09_tracked_to_plain_n3", "c09_twin_n3"],
         "thorough": ["c09_plain_n5", "c09_tracked_n5", "c09_heap_n5", "c09_zst_n5", "c09_over16_n5",
-                     "c09_big_n4", "c09_twin_n3", "c09_tracked_n3", "c09_heap_n3", "c09_plain_to_tracked_n3", "c09_tracked_to_plain_n3"],
+                     "c09_big_n4", "c09_twin_n3", "c09_tracked_n3", "c09_heap_n3", "c09_plain_to_tracked_n3", "c09_tracked_to_plain_n3",
+                     "c09_tracked_n7", "c09_plain_to_tracked_n5"],
     },
     "C10": {
         "quick": ["c10_size_ne_align_eq_n3", "c10_size_eq_align_ne_n3", "c10_size_ne_align_ne_n3",
@@ -40,7 +42,7 @@ HARNESSES = {
 }
 
 BOUNDS = {
-    "C08": "vector length n <= N (N = 3 quick, 5 thorough; 64-byte elements 2 / 4), capacity N (and no allocation "
+    "C08": "vector length n <= N (N = 3 quick, 5 thorough and 7 for three of the pairs; 64-byte elements 2 / 4), capacity N (and no allocation "
            "for the empty vector), keep/abandon pattern, input values, output-value mask and 'modify previous "
            "output' pattern all symbolic; eight element type pairs (plain u32, droppable 4/2, heap owner 16/8, "
            "zero-size with destructor, 64-byte, align-16, plain -> droppable and droppable -> plain of equal layout); outside: n > N, other element types",
